@@ -268,8 +268,11 @@ class C09(Check):
         best = Wm if np.nanmax(np.abs(W[fin] - Wm[fin])) <= np.nanmax(np.abs(W[fin] - Wp[fin])) else Wp
         out.expect('opd_is_path_difference_to_reference_sphere', ok_m or ok_p, max_err_waves=float(
             np.nanmax(np.abs(W[fin] - best[fin]))), tol=tol, n_img=n_img, xpl=xpl, Hy=Hy, W=W[fin][:4], ref=best[fin][:4])
-        out.expect('nonfinite_samples_agree', np.array_equal(np.isfinite(W), np.isfinite(Wm) | np.isfinite(Wp)) or
-                   np.array_equal(np.isfinite(W), np.isfinite(best)), W=np.isfinite(W).sum(), ref=np.isfinite(best).sum())
+        if o_ref is o:
+            # (with a refracting image surface the explicit form can lose rays - total reflection at the explicit rear
+            # face - that the image surface of the original merely receives: the patterns are not comparable)
+            out.expect('nonfinite_samples_agree', np.array_equal(np.isfinite(W), np.isfinite(Wm) | np.isfinite(Wp)) or
+                       np.array_equal(np.isfinite(W), np.isfinite(best)), W=np.isfinite(W).sum(), ref=np.isfinite(best).sum())
         chief = np.where((Px == 0) & (Py == 0))[0]
         if len(chief):
             # iterative surfaces stop at an absolute residual of 1e-6 mm that depends on the batch: the chief ray traced
